@@ -22,6 +22,7 @@ import (
 	"errors"
 	"fmt"
 	"net"
+	"os"
 	"sync"
 	"time"
 
@@ -40,6 +41,7 @@ type c09S1Gen struct {
 
 type c09S1 struct {
 	conn    secs1.Connection
+	rec     *s1tRec // recorded history of the transport's generation / hand-off layer (s1t_hist.go)
 	mu      sync.Mutex
 	gens    []*c09S1Gen
 	entered chan struct{}
@@ -71,7 +73,7 @@ func c09NewS1(handler, t3 time.Duration, lg ...logger.Logger) (*c09S1, error) {
 	if t3 == 0 {
 		t3 = 4 * time.Second
 	}
-	e := &c09S1{entered: make(chan struct{}, 4), handler: handler, release: make(chan struct{})}
+	e := &c09S1{entered: make(chan struct{}, 4), handler: handler, release: make(chan struct{}), rec: newS1tRec("host")}
 	dial := func(_ context.Context, _, _ string) (net.Conn, error) {
 		a, b := net.Pipe()
 		g := &c09S1Gen{conn: b, dialT: time.Now()}
@@ -79,7 +81,7 @@ func c09NewS1(handler, t3 time.Duration, lg ...logger.Logger) (*c09S1, error) {
 		e.mu.Lock()
 		e.gens = append(e.gens, g)
 		e.mu.Unlock()
-		return a, nil
+		return e.rec.wrap(a), nil
 	}
 	co := func(o hsms.ConnOption) secs1.Option { return secs1.WithConnectionOption(o) }
 	cfg, err := secs1.NewConfig("127.0.0.1", 5000, secs1.WithActive(), secs1.WithHost(), secs1.WithDeviceID(c09S1Dev), secs1.WithDialer(dial),
@@ -96,11 +98,12 @@ func c09NewS1(handler, t3 time.Duration, lg ...logger.Logger) (*c09S1, error) {
 			return nil, err
 		}
 	}
-	conn, err := secs1.New(cfg)
+	conn, err := secs1.VerifNewTraced(cfg, e.rec.tr) // = secs1.New with the transport's calls bracketed by the recorder
 	if err != nil {
 		return nil, err
 	}
 	e.conn = conn
+	e.rec.blockSend = conn.BlockMetrics().BlockSendCount
 	conn.AddDataMessageHandler(func(msg *hsms.DataMessage, _ hsms.SECS2Endpoint) {
 		if msg.Stream() == 77 {
 			select {
@@ -144,7 +147,7 @@ func c09S1Tags(p *s1RawPeer) []int64 {
 type c09S1Spec struct {
 	Name    string        `json:"name"`
 	Point   string        `json:"point"`   // handoff (engine busy in a handler) | awaiting (reply withheld) | midblock | yield (handler runs inside the send)
-	Trigger string        `json:"trigger"` // close | peerdrop
+	Trigger string        `json:"trigger"` // close | peerdrop | reopen (Close(), then Open() again: a second generation without a drop)
 	Handler time.Duration `json:"handler"`
 	Sync    int           `json:"sync"`
 	Async   int           `json:"async"`
@@ -190,6 +193,8 @@ type c09S1Call struct {
 	Outcome string `json:"outcome"`
 	Err     string `json:"err,omitempty"`
 	AfterMs int64  `json:"returned_ms_after_trigger"`
+	StartSt int64  `json:"start_stamp"`
+	EndSt   int64  `json:"end_stamp"`
 	started time.Time
 	ended   time.Time
 	done    bool
@@ -243,6 +248,7 @@ func c09RunS1(c *Ctx, sp c09S1Spec) (viols []c09S1Viol) {
 					for k := 0; k < 3; k++ {
 						g.peer.readByte(2 * time.Second)
 					}
+					e.rec.notePeerClose(0) // midblock serves generation 0 only
 					_ = g.conn.Close()
 					return
 				}
@@ -250,7 +256,24 @@ func c09RunS1(c *Ctx, sp c09S1Spec) (viols []c09S1Viol) {
 			}
 		}()
 	}
+	// generation 1 is served from the moment it is dialled (a stale request re-queued there must be able to reach the peer)
+	serveWG.Add(1)
+	go func() {
+		defer serveWG.Done()
+		for {
+			select {
+			case <-stopServe:
+				return
+			case <-time.After(2 * time.Millisecond):
+			}
+			if g1 := e.gen(1); g1 != nil {
+				serve(g1, false)
+				return
+			}
+		}
+	}()
 	n := sp.Sync + sp.Async
+	var extraCalls []s1tCall // calls made after the first wave (the fresh send on generation 1)
 	calls := make([]c09S1Call, n)
 	var cmu sync.Mutex
 	var wg sync.WaitGroup
@@ -271,8 +294,13 @@ func c09RunS1(c *Ctx, sp c09S1Spec) (viols []c09S1Viol) {
 				var r rCallResult
 				var item secs2.Item = secs2.NewUintItem(4, uint32(i))
 				if i == 0 && sp.YieldAt > 1 {
-					item = secs2.NewBinaryItem(bytes.Repeat([]byte{0x5a}, 244*(sp.YieldAt-1)+20)) // a multi-block message
+					p := bytes.Repeat([]byte{0x5a}, 244*(sp.YieldAt-1)+20) // a multi-block message
+					p[0], p[1], p[2], p[3] = 0, 0, 0, 0                    // its call tag (0), as s1tTag reads it
+					item = secs2.NewBinaryItem(p)
 				}
+				cmu.Lock()
+				calls[i].StartSt = rStamp()
+				cmu.Unlock()
 				if kind == "s" {
 					reply, err := e.conn.SendDataMessage(context.Background(), 1, byte(1+2*i), true, item)
 					rClassify(reply, err, &r)
@@ -284,7 +312,7 @@ func c09RunS1(c *Ctx, sp c09S1Spec) (viols []c09S1Viol) {
 					}
 				}
 				cmu.Lock()
-				calls[i].Outcome, calls[i].Err, calls[i].ended, calls[i].done = r.Outcome, r.Err, time.Now(), true
+				calls[i].Outcome, calls[i].Err, calls[i].ended, calls[i].done, calls[i].EndSt = r.Outcome, r.Err, time.Now(), true, rStamp()
 				cmu.Unlock()
 			}()
 		}
@@ -350,14 +378,26 @@ func c09RunS1(c *Ctx, sp c09S1Spec) (viols []c09S1Viol) {
 		cmu.Unlock()
 	}
 	trigger := time.Now()
+	byClose := sp.Trigger == "close" || sp.Trigger == "reopen"
 	closeDone := make(chan error, 1)
+	reopened := make(chan error, 1)
 	switch {
 	case sp.Point == "midblock":
 		// the serve loop drops the link in the middle of the first block
-	case sp.Trigger == "close":
+	case sp.Trigger == "reopen":
+		// Close(), and as soon as it has returned Open() again — without waiting for the pending sends: a sender still parked on
+		// generation 0 then sees generation 1 come up
+		go func() {
+			closeDone <- e.conn.Close()
+			octx, ocancel := context.WithTimeout(context.Background(), 10*time.Second)
+			reopened <- e.conn.Open(octx, hsms.OpenWaitSelected)
+			ocancel()
+		}()
+	case byClose:
 		go func() { closeDone <- e.conn.Close() }()
 	default:
 		g0.closed = true
+		e.rec.notePeerClose(0)
 		_ = g0.conn.Close()
 	}
 	fin := make(chan struct{})
@@ -376,7 +416,7 @@ func c09RunS1(c *Ctx, sp c09S1Spec) (viols []c09S1Viol) {
 	promptFrom := trigger
 	if sp.Point == "afterwrite" {
 		// the generation ends — and, after a peer drop, is REPLACED — while the sender is held; then it is released
-		if sp.Trigger == "close" {
+		if byClose {
 			time.Sleep(300 * time.Millisecond)
 		} else {
 			deadline := time.Now().Add(5 * time.Second)
@@ -391,7 +431,7 @@ func c09RunS1(c *Ctx, sp c09S1Spec) (viols []c09S1Viol) {
 		lg.release()
 	}
 	if sp.Point == "yield" {
-		if sp.Trigger == "close" {
+		if byClose {
 			// the handler returns as soon as every pending send has (or after its full duration)
 			select {
 			case <-fin:
@@ -440,7 +480,7 @@ func c09RunS1(c *Ctx, sp c09S1Spec) (viols []c09S1Viol) {
 			violate("property", "cut-call-outcome", fmt.Sprintf("SECS-I: call %d was pending when its generation ended and returned %s (%s)", cl.Idx, cl.Outcome, cl.Err), replay)
 		}
 		// a Close() cancels the generation at once: nothing may wait for the handler or for T3
-		if sp.Trigger == "close" && sp.Point != "midblock" && sp.Point != "afterwrite" && cl.ended.Sub(trigger) > prompt {
+		if byClose && sp.Point != "midblock" && sp.Point != "afterwrite" && cl.ended.Sub(trigger) > prompt {
 			what := "waiter-not-released-promptly"
 			detail := fmt.Sprintf("SECS-I: call %d (%s) returned %v after Close() began", cl.Idx, cl.Outcome, cl.ended.Sub(trigger).Round(time.Millisecond))
 			if sp.Point == "yield" {
@@ -462,22 +502,49 @@ func c09RunS1(c *Ctx, sp c09S1Spec) (viols []c09S1Viol) {
 				violate("property", "stale-sender-not-released-promptly", fmt.Sprintf("SECS-I: call %d (%s) returned %v after the held sender of the ended generation was released (bound %v)", cl.Idx, cl.Outcome, lat.Round(time.Millisecond), prompt), replay)
 			}
 		}
-		if sp.Point == "yield" && sp.Trigger != "close" && cl.ended.Sub(promptFrom) > prompt {
+		if sp.Point == "yield" && !byClose && cl.ended.Sub(promptFrom) > prompt {
 			violate("property", "waiter-not-released-promptly", fmt.Sprintf("SECS-I: call %d (%s) returned %v after the handler that held the line engine had returned on a dropped line (bound %v)",
 				cl.Idx, cl.Outcome, cl.ended.Sub(promptFrom).Round(time.Millisecond), prompt), replay)
 		}
 	}
-	// after a peer drop the connection reconnects: nothing of generation 0 may be transmitted on generation 1
+	if sp.Trigger == "reopen" && sp.Point != "midblock" {
+		// the application closes and opens again: the senders that were pending on generation 0 have returned (or are about
+		// to); whatever they had queued must not surface on the generation the new Open brings up
+		e.releaseHandler()
+		select {
+		case err := <-closeDone:
+			if errors.Is(err, hsms.ErrCloseTimeout) {
+				violate("property", "close-timeout", "SECS-I: Close returned ErrCloseTimeout: a task of the generation was still parked when the bounded join expired", replay)
+			}
+		case <-time.After(12 * time.Second):
+			violate("property", "close-never-returned", "SECS-I: Close did not return within 12 s", replay)
+		}
+		select {
+		case err := <-reopened:
+			if err != nil {
+				violate("correspondence", "scenario-incomplete", "secs1: Open after Close failed: "+err.Error(), replay)
+			}
+		case <-time.After(12 * time.Second):
+			violate("correspondence", "scenario-incomplete", "secs1: Open after Close did not return within 12 s", replay)
+		}
+	}
+	// after a peer drop (or a Close followed by a new Open) a new generation comes up: nothing of generation 0 may be transmitted on generation 1
 	if sp.Trigger != "close" || sp.Point == "midblock" {
 		deadline := time.Now().Add(5 * time.Second)
 		for time.Now().Before(deadline) && (e.numGens() < 2 || e.conn.State() != hsms.SelectedState) {
 			time.Sleep(2 * time.Millisecond)
 		}
 		if g1 := e.gen(1); g1 != nil {
-			serve(g1, false)
 			// a fresh send proves generation 1 is usable and flushes anything that might have been carried over
 			ctx, cancel := context.WithTimeout(context.Background(), 2*time.Second)
-			_ = e.conn.SendDataMessageAsync(ctx, 3, 1, false, secs2.NewUintItem(4, 5000))
+			fresh := s1tCall{Idx: n, Kind: "a", Tag: 5000, StartSt: rStamp()}
+			var fr rCallResult
+			rClassify(nil, e.conn.SendDataMessageAsync(ctx, 3, 1, false, secs2.NewUintItem(4, 5000)), &fr)
+			if fr.Outcome == "nilnil" {
+				fr.Outcome = "sent"
+			}
+			fresh.Outcome, fresh.EndSt = fr.Outcome, rStamp()
+			extraCalls = append(extraCalls, fresh)
 			cancel()
 			deadline = time.Now().Add(1500 * time.Millisecond)
 			for time.Now().Before(deadline) {
@@ -493,15 +560,21 @@ func c09RunS1(c *Ctx, sp c09S1Spec) (viols []c09S1Viol) {
 				time.Sleep(2 * time.Millisecond)
 			}
 			time.Sleep(50 * time.Millisecond)
-			for _, t := range c09S1Tags(g1.peer) {
-				if t >= 0 && int(t) < n {
-					violate("property", "stale-frame-on-later-generation", fmt.Sprintf("SECS-I: the message of call %d, accepted on generation 0, was transmitted on generation 1", t), replay)
-				}
-			}
+			// a first-wave message on generation 1 is legitimate only if its send call started late enough to be ACCEPTED there, i.e.
+			// its transport Write was called with generation 1's socket (recorded by the hook); every other one crossed generations
+			onGen := e.rec.writeGens()
 			g1.peer.mu.Lock()
 			for _, w := range g1.peer.received {
-				if len(w) >= 13 && (w[3]&0x7f == 1 || w[3]&0x7f == 2) { // streams 1 / 2 are used by the first wave only
-					violate("property", "stale-frame-on-later-generation", fmt.Sprintf("SECS-I: a block of a first-wave message (header %x), accepted on generation 0, was transmitted on generation 1", w[1:11]), replay)
+				if len(w) < 13 {
+					continue
+				}
+				sb := uint32(w[7])<<24 | uint32(w[8])<<16 | uint32(w[9])<<8 | uint32(w[10])
+				key := [2]uint32{sb, uint32(w[3]&0x7f)<<8 | uint32(w[4])}
+				if gens, ok := onGen[key]; ok && !gens[1] {
+					violate("property", "stale-frame-on-later-generation", fmt.Sprintf("SECS-I: a block of the message S%dF%d system bytes %#x (call tag %d), whose send was accepted on generation 0 (its Write was given generation 0's socket), was transmitted on generation 1",
+						w[3]&0x7f, w[4], sb, rParseTag(w[11:len(w)-2])), replay)
+				} else if !ok {
+					violate("property", "stale-frame-on-later-generation", fmt.Sprintf("SECS-I: a block (header %x) that no Write call accounts for was transmitted on generation 1", w[1:11]), replay)
 				}
 			}
 			g1.peer.mu.Unlock()
@@ -527,6 +600,28 @@ func c09RunS1(c *Ctx, sp c09S1Spec) (viols []c09S1Viol) {
 		_ = e.gen(i).conn.Close()
 	}
 	serveWG.Wait()
+	// correspondence: the recorded history of the transport's generation / hand-off layer against the Lean model
+	if !hung {
+		cmu.Lock()
+		hist := make([]s1tCall, 0, n+len(extraCalls))
+		for _, cl := range calls {
+			k := "s"
+			if cl.Kind == "a" {
+				k = "a"
+			}
+			hist = append(hist, s1tCall{Idx: cl.Idx, Kind: k, Tag: int64(cl.Idx), StartSt: cl.StartSt, EndSt: cl.EndSt, Outcome: cl.Outcome})
+		}
+		cmu.Unlock()
+		hist = append(hist, extraCalls...)
+		time.Sleep(20 * time.Millisecond) // the drain goroutine's last counter updates
+		sv, srep := s1tCheck(c, e.rec, hist, s1tExpect{M: rReadMetrics(e.conn), Blocks: e.conn.BlockMetrics(), Checked: true})
+		for _, v := range sv {
+			if srep != nil {
+				srep["spec"] = sp
+			}
+			violate("correspondence", v[0], v[1], srep)
+		}
+	}
 	c.Count(fmt.Sprintf("secs1|%s|%s|%d|%d", sp.Point, sp.Trigger, sp.Sync, sp.Async), true)
 	if len(c.Res.Samples) < 8 && len(viols) == 0 {
 		c.Sample(map[string]any{"scenario": "secs1/" + sp.Name, "calls": snapshot})
@@ -547,6 +642,9 @@ func c09SECS1(c *Ctx) {
 		{Name: "yield-close", Point: "yield", Trigger: "close", Handler: hy, Sync: 2, Async: 1, YieldAt: 1},
 		{Name: "yield-close-second-block", Point: "yield", Trigger: "close", Handler: hy, Sync: 1, Async: 0, YieldAt: 2},
 		{Name: "yield-peerdrop", Point: "yield", Trigger: "peerdrop", Handler: hy, Sync: 2, Async: 1, YieldAt: 1},
+		// Close() with a send parked at the hand-off (engine busy in a handler), then Open() again: a second generation without any drop
+		{Name: "handoff-reopen", Point: "handoff", Trigger: "reopen", Handler: h, Sync: 2, Async: 0}, // no queued async message: the drain goroutine would wait for the write lock and hold Close back
+		{Name: "yield-reopen", Point: "yield", Trigger: "reopen", Handler: hy, Sync: 2, Async: 0, YieldAt: 1},
 		// the generation is replaced while a sender sits between its Write and its reply wait (held by the trace logger)
 		{Name: "afterwrite-peerdrop", Point: "afterwrite", Trigger: "peerdrop", Handler: h, Sync: 2, Async: 0},
 		{Name: "afterwrite-close", Point: "afterwrite", Trigger: "close", Handler: h, Sync: 2, Async: 0},
@@ -565,9 +663,19 @@ func c09SECS1(c *Ctx) {
 			return
 		}
 		viols := c09RunS1(c, sp)
-		if len(viols) > 0 {
+		timingFree := false // a frame of generation 0 seen on generation 1 is not a matter of timers: reported as found
+		for _, v := range viols {
+			timingFree = timingFree || v.what == "stale-frame-on-later-generation"
+		}
+		if len(viols) > 0 && !timingFree {
 			// a loaded machine: once more with every duration scaled, and only that result counts
 			c.Stat("secs1-retried-with-scaled-timers")
+			for _, v := range viols {
+				c.Stat("secs1-first-run:" + sp.Name + ":" + v.what)
+				if os.Getenv("VERIF_S1T_DEBUG") != "" {
+					fmt.Fprintf(os.Stderr, "FIRST-RUN %s %s: %s\n  replay: %v\n", sp.Name, v.what, v.detail, v.replay)
+				}
+			}
 			spx := sp
 			spx.Name += "(x3)"
 			spx.Handler *= 3
